@@ -27,6 +27,14 @@ def run(ctx):
     m, binds, params, sets = Q.model(ctx)
     Q.rule_must_decode(ctx, "R7", m, params, sets)
     Q.rule_upper_quoted(ctx, "R7u")
+    Q.rule_space(ctx, "R7s")
+    from .c03 import redirection_sees_decoded_letters
+    redirection_sees_decoded_letters(ctx, "R5l")
+    from .c05 import mistakes_language
+    ctx.rule("R1m", "the '&amp;' repair only rewrites terminated entities (it cannot eat the first letters of a key such as amp_x or amplitude)")
+    mistakes_language(ctx, "R1m")
+    from .c20 import protocol_language
+    protocol_language(ctx, "R1p")
     U.rule_qsl(ctx, "R8")
 
 
@@ -126,22 +134,7 @@ def reference_languages(ctx, rule, spec):
     except Unsupported as e:
         ctx.undecided(rule, "MISTAKES_RE: %s" % e)
     repair_function(ctx, rule)
-    # redirection inference runs before the '&amp;' repair and before the port rule: its own patterns must not care
-    im = repo.mod("infer_redirection")
-    for name, refpat, what, w in (
-        ("OBVIOUS_REDIRECTS_RE", r"&[aA][mM][pP](?:;|%3[bB])(?:url|next|u)=x", "a redirect key written after '&amp;' is not recognised: '?a=1&amp;url=...' and '?a=1&url=...' get two normalized forms", "http://a.com/?a=1&amp;url=http%3A%2F%2Fb.com"),
-        ("REDIRECTION_DOMAINS_RE", r"\.ampproject\.org(?::[0-9]{1,5})?/[cv]/(?:s/)?", "an AMP cache host with an explicit port is not resolved: ':443' changes the normalized form", "https://b-com.cdn.ampproject.org:443/c/s/b.com/x"),
-    ):
-        rx = repo.const(im, name)
-        ctx.rx("ural.infer_redirection." + name)
-        try:
-            A = Algebra()
-            cur = A.regex(rx.pattern, rx.flags, "fullmatch", name)
-            ref = A.regex(refpat, 0, "fullmatch")
-            wit = A.subset(ref, cur)
-            ctx.ob(rule, "%s/spelling-insensitive" % name, wit is None, "%s does not match %r: %s" % (name, wit, what), im.site(repo.const_node(im, name)), witness=w)
-        except Unsupported as e:
-            ctx.undecided(rule, "%s: %s" % (name, e))
+    redirect_spellings(ctx, rule)
     # CONTROL_CHARS
     from .c02 import control_chars_language
     control_chars_language(ctx, rule)
@@ -170,6 +163,26 @@ def subdomain_labels(ctx, rule, spec):
                     w = None
                 ctx.ob(rule, "%s/label/%s/%s" % (name, lab, "leading" if host.startswith(lab) else "inner"), w is None,
                        "sub-domain label %r in %r is no longer matched by %s" % (lab, host, name), site, witness=host)
+
+
+def redirect_spellings(ctx, rule):
+    """redirection inference runs before the '&amp;' repair and before the port rule: its own patterns must not care"""
+    repo = ctx.repo
+    im = repo.mod("infer_redirection")
+    for name, refpat, what, w in (
+        ("OBVIOUS_REDIRECTS_RE", r"&[aA][mM][pP](?:;|%3[bB])(?:url|next|u)=x", "a redirect key written after '&amp;' is not recognised: '?a=1&amp;url=...' and '?a=1&url=...' get two normalized forms", "http://a.com/?a=1&amp;url=http%3A%2F%2Fb.com"),
+        ("REDIRECTION_DOMAINS_RE", r"\.ampproject\.org(?::[0-9]{1,5})?/[cv]/(?:s/)?", "an AMP cache host with an explicit port is not resolved: ':443' changes the normalized form", "https://b-com.cdn.ampproject.org:443/c/s/b.com/x"),
+    ):
+        rx = repo.const(im, name)
+        ctx.rx("ural.infer_redirection." + name)
+        try:
+            A = Algebra()
+            cur = A.regex(rx.pattern, rx.flags, "fullmatch", name)
+            ref = A.regex(refpat, 0, "fullmatch")
+            wit = A.subset(ref, cur)
+            ctx.ob(rule, "%s/spelling-insensitive" % name, wit is None, "%s does not match %r: %s" % (name, wit, what), im.site(repo.const_node(im, name)), witness=w)
+        except Unsupported as e:
+            ctx.undecided(rule, "%s: %s" % (name, e))
 
 
 def repair_function(ctx, rule):
